@@ -344,7 +344,7 @@ def main():
     import contextlib
     import signal
 
-    class CaseTimeout(Exception):
+    class CaseTimeout(BaseException):
         pass
 
     def on_alarm(signum, frame):
@@ -353,16 +353,18 @@ def main():
     for c in cases:
         t0 = time.time()
         try:
-            signal.alarm(int(c.get('timeout', 30)))
+            # repeating timer: lcapy's bare `except:` clauses can swallow the first exception
+            signal.setitimer(signal.ITIMER_REAL, float(c.get('timeout', 30)), 2.0)
             with contextlib.redirect_stdout(io.StringIO()):
                 r = tab[c['kind']](c)
-            signal.alarm(0)
+            signal.setitimer(signal.ITIMER_REAL, 0)
             r['secs'] = round(time.time() - t0, 2)
             res.append(r)
         except CaseTimeout:
+            signal.setitimer(signal.ITIMER_REAL, 0)
             res.append({'timeout': True})
         except Exception as e:
-            signal.alarm(0)
+            signal.setitimer(signal.ITIMER_REAL, 0)
             res.append({'error': type(e).__name__ + ': ' + str(e)[:200]})
     json.dump(res, sys.stdout)
 
